@@ -63,7 +63,7 @@ def run(ctx):
     for k in range(n):
         g = gen.Gen(random.Random(rng.randint(0, 2 ** 60)), size=rng.randint(3, 8),
                     feat=dict(deps=0.85, no_manifest_path=0.35, restat=0.25, phony=0.15, generator=0.0, rsp=0.05, vals=0.1,
-                              chain=0.7))
+                              chain=0.7, dyndep=0.0))
         D = g.scenario("C10-%d-%d" % (ctx.seed, k))
         if not any(s["deps"] != "none" for s in D["stmts"]):
             continue
